@@ -513,13 +513,15 @@ func (g *gen) sstore() {
 		g.emit(c03Op{K: "cstate", A: a, Key: k})
 	}
 	g.emit(c03Op{K: "setstate", A: a, Key: k, V: v})
-	switch g.r.Intn(4) {
+	switch g.r.Intn(3) {
 	case 0:
 		g.emit(c03Op{K: "addrefund", V: int64(g.r.Range(1, 3)) * 4800})
 	case 1:
 		cur := int64(g.db.GetRefund())
 		if cur > 0 {
 			g.emit(c03Op{K: "subrefund", V: int64(g.r.Range(1, int(min64(cur, 9600))))})
+		} else {
+			g.emit(c03Op{K: "addrefund", V: 4800})
 		}
 	}
 }
